@@ -39,7 +39,10 @@ def parseTail (w : String) : Option Tail :=
 def parseMem (w : String) : Option Mem :=
   if w = "file" then some .file else if w = "memfd" then some .memfd else none
 
-def parseMsgs (ws : List String) : Option (List Msg) := ws.mapM parseMsg
+/-- a message that arrives only in part never completes: for the reader the input ends there -/
+def isPart (w : String) : Bool := w.startsWith "part:" || w.startsWith "partb:"
+
+def parseMsgs (ws : List String) : Option (List Msg) := (ws.takeWhile (fun w => !isPart w)).mapM parseMsg
 
 def step (d : Unit) (line : String) : Unit × String :=
   match Drv.words line with
@@ -54,12 +57,16 @@ def step (d : Unit) (line : String) : Unit × String :=
     -- the client cannot create its queue (the file is already there): establishment fails before anything is sent
     (d, "c=init-error sent=")
   | "srv" :: t :: ms =>
+    if t = "deaf" && ms.any isPart then (d, "bad-op") else
+    -- a truncated metadata body only where the server is about to read a metadata message
+    if (ms.zipIdx.any (fun (w, i) => w.startsWith "partb:" && !(i == 1 && ms.head? == some "exver:3"))) then (d, "bad-op") else
     match parseTail t, parseMsgs ms with
     | some tl, some msgs =>
       let r := server msgs tl
       (d, s!"{showRes "s" r} sent={Drv.joinWith "," (r.sent.map showMsg)}")
     | _, _ => (d, "bad-op")
   | "cli" :: mt :: t :: ms =>
+    if ms.any (fun w => w.startsWith "partb:") then (d, "bad-op") else
     match parseMem mt, parseTail t, parseMsgs ms with
     | some _, some .deaf, some _ => (d, "bad-op")      -- the scripted server is never deaf
     | some m, some tl, some msgs =>
